@@ -74,7 +74,18 @@ type epochState struct {
 	proposalsSent                                       int // proposals the strategy put on this round's channel
 
 	prevoteAnswers, decideAnswers []string // strategy answers given to calls of this round, in order
-	unreadPrevote, unreadDecide   bool     // a result was produced after the machine left the round (stays in the channel)
+
+	// votes of this round that the action store already held when the incarnation started in it
+	recPrevote, recPrecommit       recordedVote
+	reemitPrevote, reemitPrecommit int
+	hasActions                     bool
+	unreadPrevote, unreadDecide    bool // a result was produced after the machine left the round (stays in the channel)
+}
+
+type recordedVote struct {
+	present bool
+	target  string
+	sig     string
 }
 
 func newEpoch(h uint64, r uint32) *epochState {
@@ -223,6 +234,7 @@ func (m *rmodel) onEntranceReq(idx int, h uint64, r uint32, hasActions bool) {
 	m.phase = phEntrance
 	m.resetRound(h, r)
 	m.cur = newEpoch(h, r)
+	m.cur.hasActions = hasActions
 	m.epochs[idx] = m.cur
 }
 
@@ -261,6 +273,15 @@ func (m *rmodel) show(f viewFacts) {
 	if !f.PrecMajTarget && f.PrecTot == f.Total {
 		e.fullNoQuorum = true
 	}
+}
+
+// decideDue: the model demands one more DecidePrecommit request -- unless the precommit of this
+// round was already recorded before a restart: then the choice is made, and asking again is forbidden.
+func (m *rmodel) decideDue() {
+	if m.cur != nil && m.cur.recPrecommit.present {
+		return
+	}
+	m.expDecide++
 }
 
 func (m *rmodel) leave() {
@@ -304,20 +325,30 @@ func (m *rmodel) onEntranceVRV(f viewFacts) {
 			m.commit(f)
 		default: // A15
 			m.step, m.timer = stPrecommitDelay, tkPrecommitDelay
-			m.expDecide++
+			m.decideDue()
 		}
 	case vi.min(f.PrecTot):
 		m.step = stAwaitPrecommits
-		m.expDecide++
+		m.decideDue()
 	case vi.maj(f.PrevTot):
 		if f.PrevMajTarget {
 			m.step = stAwaitPrecommits
-			m.expDecide++
+			m.decideDue()
 		} else { // A15
 			m.step, m.timer = stPrevoteDelay, tkPrevoteDelay
 		}
 	default:
 		m.step, m.timer = stAwaitProposal, tkProposal
+		if m.cur.recPrevote.present {
+			// restarted in a round whose prevote is recorded: where recording the prevote left the machine
+			m.step, m.timer = stAwaitPrevotes, tkNone
+		}
+	}
+	if m.cur.recPrevote.present {
+		m.prevoteTaken = true
+	}
+	if m.cur.recPrecommit.present {
+		m.precommitTaken = true
 	}
 }
 
@@ -370,7 +401,7 @@ func (m *rmodel) onView(f *viewFacts, jump bool) {
 				m.commit(*f)
 			default:
 				m.step, m.timer = stPrecommitDelay, tkPrecommitDelay
-				m.expDecide++
+				m.decideDue()
 			}
 			return true
 		}
@@ -380,12 +411,12 @@ func (m *rmodel) onView(f *viewFacts, jump bool) {
 			case precMaj():
 			case vi.min(f.PrecTot):
 				m.step, m.timer = stAwaitPrecommits, tkNone
-				m.expDecide++
+				m.decideDue()
 			case vi.maj(f.PrevTot):
 				if f.PrevMajTarget {
 					m.step, m.timer = stAwaitPrecommits, tkNone
 					m.expChoose++
-					m.expDecide++ // the statement: precommit decision is due once a prevote quorum is visible
+					m.decideDue() // the statement: precommit decision is due once a prevote quorum is visible
 					m.p16 = true
 				} else {
 					m.step, m.timer = stPrevoteDelay, tkPrevoteDelay
@@ -397,7 +428,7 @@ func (m *rmodel) onView(f *viewFacts, jump bool) {
 			case vi.maj(f.PrevTot):
 				if f.PrevMajTarget {
 					m.step, m.timer = stAwaitPrecommits, tkNone
-					m.expDecide++
+					m.decideDue()
 				} else if m.step == stAwaitPrevotes {
 					m.step, m.timer = stPrevoteDelay, tkPrevoteDelay
 				}
@@ -446,7 +477,7 @@ func (m *rmodel) onTimerFired(kind int) {
 		m.step, m.timer = stAwaitPrevotes, tkNone
 	case stPrevoteDelay:
 		m.cur.trigPrevoteDelay = true
-		m.expDecide++
+		m.decideDue()
 		m.step, m.timer = stAwaitPrecommits, tkNone
 	case stPrecommitDelay:
 		m.cur.precDelayFired = true
@@ -565,6 +596,14 @@ func (m *rmodel) compare(o smObs) {
 	if e.finReqs != m.expFinReq {
 		m.failf("C08", "finalize-request-count", "", "%d finalize requests in %d/%d, model expects %d (%s)", e.finReqs, m.H, m.R, m.expFinReq, m.where())
 	}
+	if e.vrv && e.hasActions {
+		if e.recPrevote.present && e.reemitPrevote != 1 {
+			m.failf("C02", "recorded-vote-not-re-emitted", "", "prevote recorded for %d/%d before the restart was sent to the mirror %d times", e.H, e.R, e.reemitPrevote)
+		}
+		if e.recPrecommit.present && e.reemitPrecommit != 1 {
+			m.failf("C02", "recorded-vote-not-re-emitted", "", "precommit recorded for %d/%d before the restart was sent to the mirror %d times", e.H, e.R, e.reemitPrecommit)
+		}
+	}
 	if e.vrv && e.enterCalls != 1 {
 		m.failf("C08", "enter-round-count", "", "EnterRound called %d times for %d/%d", e.enterCalls, m.H, m.R)
 	}
@@ -620,6 +659,9 @@ func (m *rmodel) scan() {
 				m.failf("C08", "vote-round", "", "%s for %d/%d while machine is in %v", ev.Kind, ev.H, ev.R, m.lastEntered)
 				continue
 			}
+			if (kind == "prevote" && e.recPrevote.present) || (kind == "precommit" && e.recPrecommit.present) {
+				m.failf("C02", "signer-called-for-recorded-vote", "", "Signer.%s called for %d/%d although that vote was recorded before the restart", kind, e.H, e.R)
+			}
 			switch kind {
 			case "prevote":
 				e.signPrevote++
@@ -653,6 +695,21 @@ func (m *rmodel) scan() {
 				}
 			}
 		case "action-prevote", "action-precommit", "action-proposal":
+			if e != nil {
+				rec, n := &e.recPrevote, &e.reemitPrevote
+				if ev.Kind == "action-precommit" {
+					rec, n = &e.recPrecommit, &e.reemitPrecommit
+				}
+				if ev.Kind != "action-proposal" && rec.present {
+					*n++
+					if rec.sig != string(ev.B) || rec.target != ev.S {
+						m.failf("C02", "re-emitted-vote-differs", "", "%s emitted in %d/%d after the restart (target %s) is not the recorded one (target %s) byte for byte", ev.Kind[7:], e.H, e.R, short(ev.S), short(rec.target))
+					}
+					if *n > 1 {
+						m.failf("C02", "recorded-vote-re-emitted-twice", "", "%s of %d/%d emitted %d times after the restart", ev.Kind[7:], e.H, e.R, *n)
+					}
+				}
+			}
 			if !m.saved[fmt.Sprintf("%s|%d|%d|%x", ev.Kind[7:], ev.H, ev.R, ev.B)] {
 				m.failf("C02", "emit-before-save", "", "%s for %d/%d (target %s) emitted without a preceding successful save of the same signature", ev.Kind[7:], ev.H, ev.R, short(ev.S))
 			}
@@ -729,6 +786,10 @@ func (m *rmodel) onStratCall(c *stratCall) {
 				m.failf("C07", "unacceptable-proposal-reached-strategy", "", "%s in %d/%d was passed proposal %s, which is not an acceptable proposal of the latest view", name, e.H, e.R, short(k))
 			}
 		}
+	}
+	if ((c.kind == scConsider || c.kind == scChoose) && e.recPrevote.present) || (c.kind == scDecide && e.recPrecommit.present) {
+		m.failf("C02", "strategy-consulted-for-recorded-vote", "", "%s called in %d/%d although the vote of that kind was recorded for this round before the restart", name, e.H, e.R)
+		m.failf("C08", "strategy-consulted-for-recorded-vote", "", "%s called in %d/%d although the vote of that kind was recorded for this round before the restart", name, e.H, e.R)
 	}
 	switch c.kind {
 	case scConsider:
